@@ -543,9 +543,11 @@ func (fr *Frame) applyContract(c *Contract, key string, sig *types.Signature, re
 	}
 	ex.P.contractKeys(c, keys)
 	targets := map[string][][]Term{} // heap name -> index tuples that may change
+	ranges := map[string][][3]Term{} // heap name -> (row, off, len) of elems() targets
 	whole := map[string]bool{}
 	var starRefs []Term
 	var starTypes []types.Type
+	var starLocs []*Loc
 	for _, m := range c.Modifies {
 		if m.Whole {
 			whole[m.Key] = true
@@ -556,6 +558,7 @@ func (fr *Frame) applyContract(c *Contract, key string, sig *types.Signature, re
 			sv := env.eval(m.E)
 			starRefs = append(starRefs, refOf(sv))
 			starTypes = append(starTypes, sv.T)
+			starLocs = append(starLocs, sv.P)
 			keys["*"] = true
 			continue
 		}
@@ -563,6 +566,9 @@ func (fr *Frame) applyContract(c *Contract, key string, sig *types.Signature, re
 			for _, h := range tl.heaps {
 				targets[h.Name] = append(targets[h.Name], tl.idx)
 				keys[h.Key] = true
+				if tl.rng != nil {
+					ranges[h.Name] = append(ranges[h.Name], [3]Term{tl.idx[0], tl.rng[0], tl.rng[1]})
+				}
 			}
 		}
 	}
@@ -583,7 +589,7 @@ func (fr *Frame) applyContract(c *Contract, key string, sig *types.Signature, re
 				r := Term{"fr", SInt}
 				var excl []Term
 				for si, sr := range starRefs {
-					if ex.P.starAffects(h, starTypes[si]) {
+					if ex.P.starAffectsLoc(h, starTypes[si], starLocs[si]) {
 						excl = append(excl, Ne(r, sr))
 					}
 				}
@@ -648,6 +654,43 @@ func (fr *Frame) applyContract(c *Contract, key string, sig *types.Signature, re
 				}
 			}
 			ex.vc.assert(Forall([]string{"fr"}, Implies(And(append([]Term{Le(r, preAlloc)}, excl...)...), Eq(Select(nw, r), Select(old, r))), Select(nw, r)))
+			// elems(s): within the row of s only the elements of s itself may change
+			if h.Dim == 2 {
+				byRow := map[string][][3]Term{}
+				var order []string
+				for _, rg := range ranges[h.Name] {
+					if _, ok := byRow[rg[0].S]; !ok {
+						order = append(order, rg[0].S)
+					}
+					byRow[rg[0].S] = append(byRow[rg[0].S], rg)
+				}
+				wholeRow := map[string]bool{}
+				for _, idx := range tg {
+					if len(idx) == 1 {
+						found := false
+						for _, rg := range ranges[h.Name] {
+							if rg[0].S == idx[0].S {
+								found = true
+							}
+						}
+						if !found {
+							wholeRow[idx[0].S] = true
+						}
+					}
+				}
+				for _, rk := range order {
+					if wholeRow[rk] {
+						continue
+					}
+					j := Term{"fj", SInt}
+					var outside []Term
+					for _, rg := range byRow[rk] {
+						outside = append(outside, Or(Lt(j, rg[1]), Ge(j, Add(rg[1], rg[2]))))
+					}
+					row := byRow[rk][0][0]
+					ex.vc.assert(Forall([]string{"fj"}, Implies(And(outside...), Eq(Select(Select(nw, row), j), Select(Select(old, row), j))), Select(Select(nw, row), j)))
+				}
+			}
 		}
 	}
 	var st2 *State
@@ -890,6 +933,20 @@ func (fr *Frame) checkImplRequires(cc *ssa.CallCommon, recv Val, args []Val, st 
 
 
 // starAffects: can an object denoted by a value of static type t live in heap h?
+// starAffectsLoc: like starAffects, but a pointer into the interior of an object
+// (&x.f) denotes the heaps of x below the path .f.
+func (P *Prog) starAffectsLoc(h *HeapInfo, t types.Type, loc *Loc) bool {
+	if loc != nil && loc.Fam == "H" && loc.Path != "" && strings.HasPrefix(h.Name, "H$") {
+		rest := h.Name[2:]
+		i := strings.Index(rest, "$")
+		if i >= 0 {
+			root, path := rest[:i], rest[i+1:]
+			return root == loc.Root && (path == loc.Path || strings.HasPrefix(path, loc.Path+"."))
+		}
+	}
+	return P.starAffects(h, t)
+}
+
 func (P *Prog) starAffects(h *HeapInfo, t types.Type) bool {
 	if t == nil || !strings.HasPrefix(h.Name, "H$") {
 		return true
